@@ -51,6 +51,7 @@ def mkItem (lines : Array (List String)) (toks : List String) : Except String It
     | some k, some d =>
       let tgt := match lines[k]? with
         | some ("forward" :: nm :: _) => (findDef lines nm).getD k
+        | some ("export" :: nm :: _) => (findDef lines nm).getD k
         | _ => k
       .ok (.ref (optName n) tgt d)
     | _, _ => .error "bad ref line"
